@@ -2,6 +2,7 @@ import IsoMdl.Lemmas.Honest
 import IsoMdl.Props.C02
 import IsoMdl.Props.C05
 import IsoMdl.Props.C08
+import IsoMdl.Props.C09
 /-
 C01 — Honest presentation delivers exactly the agreed data, authenticated.
 
@@ -110,6 +111,36 @@ theorem C01_agreed_is_disclosed (held : Held) (req : Request) (perm : Permitted)
           · cases hm
           · simp [heldItem, hns, hit] at hnone
     · exact h
+
+section IssuedDisclosedAccepted
+open IsoMdl.ResponseFacts IsoMdl.Issuance
+
+/-- ISSUED, PARTLY DISCLOSED, ACCEPTED (issuance model + disclosure + the reader's wire model): take what the
+issuer put into the MSO for the items `nsl` it issued (hypotheses of
+`C09_issued_passes_reader_digest_check`).  Then ANY response that carries, per namespace, a subset of
+those items exactly as issued - what an honest device sends after intersecting the held items with
+the request and the holder's permission (C02: every disclosed item is the exact held item) - passes the
+reader's digest comparison against that MSO, for every number of namespaces and items and every
+choice of subset. -/
+theorem C01_disclosed_subset_of_issued_passes (doc' mso is' vd : Cbor) (nsl nsl' : List (Bytes × List Item))
+    (his : fget doc' "issuerSigned" = some is')
+    (hns : fget is' "nameSpaces" = some (.map (nsl'.map fun e => (Cbor.text e.1, Cbor.array (e.2.map wireItem)))))
+    (hvd : fget mso "valueDigests" = some vd)
+    (hent : ∀ e ∈ nsl, ∃ entries, mget vd (.text e.1) = some (.map entries) ∧ (entries.map (·.1)).Nodup ∧
+      ∀ it ∈ e.2, digestEntry (hashWith ((fget mso "digestAlgorithm").getD (.simple 22))) it ∈ entries)
+    (hok : ∀ e ∈ nsl, ∀ it ∈ e.2, Cbor.wf it.toCbor ∧ textOk it.toCbor = true)
+    (hsub : ∀ e' ∈ nsl', ∃ e ∈ nsl, e.1 = e'.1 ∧ ∀ it ∈ e'.2, it ∈ e.2) :
+    digestsMatch doc' mso = true := by
+  apply C09_issued_passes_reader_digest_check doc' mso is' vd nsl' his hns hvd
+  · intro e' he'
+    obtain ⟨e, he, hname, hin⟩ := hsub e' he'
+    obtain ⟨entries, h1, h2, h3⟩ := hent e he
+    exact ⟨entries, by rw [← hname]; exact h1, h2, fun it hit => h3 it (hin it hit)⟩
+  · intro e' he' it hit
+    obtain ⟨e, he, _, hin⟩ := hsub e' he'
+    exact hok e he it (hin it hit)
+
+end IssuedDisclosedAccepted
 
 /-- AUTHENTICATED: when the response reaches validation, the issuer's chain validates against a
 configured trust anchor with no error, the issuer signature and the digests check, and the holder
